@@ -23,7 +23,8 @@ PROP = {
                       "harness with a generator biased to dropped call futures (before the first poll, after it, queued, executing before "
                       "/ after the effect, replying), lost connections, undecodable requests, calls of methods the server does not know (the client uses a later version of the trait) and undecodable replies under the three policies, "
                       "cancellable and no_cancel methods (each declared in four textual layouts of its attributes) on every flavour, remote and "
-                      "local clients, and the callee going away (stop op: future of serve() / provider dropped; one case in twelve is built around it); scripted cases compared event by event with the extracted "
+                      "local clients, and the callee going away (stop op: future of serve() / provider dropped; one case in twelve is built around it), call futures parked after their first poll "
+                      "and resumed later, concurrency-limit changes of an RFn while invocations run; scripted cases compared event by event with the extracted "
                       "model (started / applied / finished / cancelled log of the target, outcomes of calls, end of serve()), 'race:' "
                       "cases and both known classes judged by the trace oracle.",
         "level_note": "Trusted: as C12. The close notification of a reply cell is a separate action (it may arrive at any time after the "
@@ -34,7 +35,7 @@ PROP = {
         "rule": "cases from one PRNG (VERIF_SEED) as for C12 but with frequent dropped calls (14% of the ops), futures dropped unpolled or "
                 "after their first poll, connection cuts, dropped clients, undecodable requests / replies (10% of the calls each), calls of unknown methods (6% on the traits with &mut methods); "
                 "every 24th case is a small scripted case of a known class: a reply above max_reply_size (signature F6:) or a request "
-                "above max_request_size (signature F14:) between ordinary calls of the same and of other clients; every 12th case is a 'callee goes away' case as for C12 (calls, stop op, calls; half of them with local clients); a case is "
+                "above max_request_size (signature F14:) between ordinary calls of the same and of other clients; every 24th case is an RFn 'limit' case as for C12, every 12th case is a 'callee goes away' case as for C12 (calls, stop op, calls; half of them with local clients); a case is "
                 "non-trivial if a call was cancelled, skipped, dropped, failed, undecodable, or the connection was cut; distinct = distinct input",
         "assumptions": [
             "the postbag codec round-trips the request and reply types of the harness traits",
